@@ -496,6 +496,13 @@ class modict(odict):
     def has_key(self, key):
         return key in self
 
+    def __reduce__(self):
+        """
+        pickle and copy as the class and every (key, value) item: the inherited
+        odict state is items() which only has the newest value of each key
+        """
+        return (self.__class__, (self.allitems(),))
+
     def append(self, key, value):
         """
         Add a new value to the list of values for this key.
